@@ -18,13 +18,71 @@ import (
 // failAfterMarshaler: for the record tokens listed in `failAt` the marshaler writes the first k bytes of the serialized
 // record and then fails - what happens when the record's block reader returns an error half way (k < 0: before a byte
 // is written). Every other record goes to the default marshaler untouched.
+//
+// segAt: for the record tokens listed there the marshaler SEGMENTS the record: it writes a first segment holding the
+// first `cut` block bytes under the record's own id and hands a continuation record (id = token + segTokOffset) with the
+// rest of the block back to the file writer, which writes it through its own write path (warcfile.go writeRecord).
 type failAfterMarshaler struct {
 	inner  gowarc.Marshaler
 	failAt map[int]int
+	segAt  map[int]int
+	segErr error
+}
+
+const segTokOffset = 40000000
+
+func (m *failAfterMarshaler) segment(w io.Writer, record gowarc.WarcRecord, cut int, maxSize int64) (gowarc.WarcRecord, int64, error) {
+	h := record.WarcHeader()
+	raw, err := record.Block().RawBytes()
+	if err != nil {
+		m.segErr = err
+		return nil, 0, err
+	}
+	data, err := io.ReadAll(raw)
+	if err != nil {
+		m.segErr = err
+		return nil, 0, err
+	}
+	if cut > len(data) {
+		cut = len(data)
+	}
+	tok := tokOfId(h.Get("WARC-Record-ID"))
+	first := gowarc.NewRecordBuilder(record.Type())
+	for _, name := range []string{"WARC-Record-ID", "WARC-Date", "WARC-Target-URI", "Content-Type", "WARC-Warcinfo-ID", "WARC-Concurrent-To"} {
+		for _, v := range h.GetAll(name) {
+			first.AddWarcHeader(name, v)
+		}
+	}
+	first.AddWarcHeaderInt("WARC-Segment-Number", 1)
+	_, _ = first.Write(data[:cut])
+	firstRec, _, err := first.Build()
+	if err != nil {
+		m.segErr = err
+		return nil, 0, err
+	}
+	cont := gowarc.NewRecordBuilder(gowarc.Continuation)
+	cont.AddWarcHeader("WARC-Record-ID", tokId(tok+segTokOffset))
+	cont.AddWarcHeader("WARC-Date", h.Get("WARC-Date"))
+	cont.AddWarcHeader("WARC-Target-URI", h.Get("WARC-Target-URI"))
+	cont.AddWarcHeader("WARC-Segment-Origin-ID", h.Get("WARC-Record-ID"))
+	cont.AddWarcHeaderInt("WARC-Segment-Number", 2)
+	cont.AddWarcHeaderInt64("WARC-Segment-Total-Length", int64(len(data)))
+	_, _ = cont.Write(data[cut:])
+	contRec, _, err := cont.Build()
+	if err != nil {
+		m.segErr = err
+		return nil, 0, err
+	}
+	_, size, err := m.inner.Marshal(w, firstRec, maxSize)
+	return contRec, size, err
 }
 
 func (m *failAfterMarshaler) Marshal(w io.Writer, record gowarc.WarcRecord, maxSize int64) (gowarc.WarcRecord, int64, error) {
-	k, ok := m.failAt[tokOfId(record.WarcHeader().Get("WARC-Record-ID"))]
+	tk := tokOfId(record.WarcHeader().Get("WARC-Record-ID"))
+	if cut, ok := m.segAt[tk]; ok {
+		return m.segment(w, record, cut, maxSize)
+	}
+	k, ok := m.failAt[tk]
 	if !ok {
 		return m.inner.Marshal(w, record, maxSize)
 	}
@@ -80,6 +138,7 @@ type wrec struct {
 	decl  string // t truthful, e removed, b garbage, z "0", g huge
 	rec   gowarc.WarcRecord
 	lying bool
+	seg   bool // written through the segmenting marshaler: a continuation record (token + segTokOffset) follows it
 }
 
 func buildWrec(w *wrec) error {
@@ -172,7 +231,7 @@ func kWriter(args []string) (string, string) {
 	var cbs []cbRec
 	var before []string
 	infoSerial := 0
-	fm := &failAfterMarshaler{inner: gowarc.NewMarshaler(), failAt: map[int]int{}}
+	fm := &failAfterMarshaler{inner: gowarc.NewMarshaler(), failAt: map[int]int{}, segAt: map[int]int{}}
 	wopts := []gowarc.WarcFileWriterOption{
 		gowarc.WithMarshaler(fm),
 		gowarc.WithMaxFileSize(max), gowarc.WithCompression(comp), gowarc.WithFileNameGenerator(ng),
@@ -300,6 +359,42 @@ func kWriter(args []string) (string, string) {
 			// the model is told: a Write that failed in the marshaler; `!n` = the file that is current afterwards (its warcinfo
 			// member, if this call created it, is measured once the files are read back)
 			modelOps = append(modelOps, fmt.Sprintf("F:%d:%s:!%d", tok, declF, len(ng.names)))
+			listing(step)
+			continue
+		}
+		if strings.HasPrefix(op, "S:") {
+			// S:<tok>,<kind>,<size>,<cut>: a Write whose record the marshaler splits into a first segment (cut block bytes) and
+			// a continuation record. One response: the position of the first segment, the byte counts added (model op `seg`)
+			f := strings.Split(op[2:], ",")
+			if len(f) != 4 {
+				return "bad-op", "ok"
+			}
+			tok, _ := strconv.Atoi(f[0])
+			size, _ := strconv.Atoi(f[2])
+			cut, _ := strconv.Atoi(f[3])
+			wr := &wrec{tok: tok, kind: f[1], size: size, decl: "t", seg: true}
+			if err := buildWrec(wr); err != nil {
+				return "build-error " + sanitize(err.Error()), "ok"
+			}
+			fm.segAt[tok] = cut
+			declS := wr.rec.WarcHeader().Get("Content-Length")
+			rr := w.Write(wr.rec)
+			if fm.segErr != nil {
+				return "build-error segment " + sanitize(fm.segErr.Error()), "ok"
+			}
+			if len(rr) != 1 {
+				setViol("writer-response-count", fmt.Sprintf("%d responses for a segmented record", len(rr)))
+				return "response-count", viol
+			}
+			all = append(all, respRec{wr, rr[0]})
+			if rr[0].Err != nil {
+				resps = append(resps, "err")
+				modelOps = append(modelOps, fmt.Sprintf("W:%d:%s:0:0:0", tok, declS))
+			} else {
+				resps = append(resps, fmt.Sprintf("%d@%d+%d", fileIdx(rr[0].FileName), rr[0].FileOffset, rr[0].BytesWritten))
+				// lengths of both members and of the warcinfo records of their files are measured once the files are read back
+				modelOps = append(modelOps, fmt.Sprintf("S:%d:%s:@%d", tok, declS, len(all)-1))
+			}
 			listing(step)
 			continue
 		}
@@ -461,6 +556,33 @@ func kWriter(args []string) (string, string) {
 			modelOps[i] = fmt.Sprintf("F:%s:%s:%d", f[1], f[2], il)
 			continue
 		}
+		if len(f) == 4 && f[0] == "S" && strings.HasPrefix(f[3], "@") {
+			k, _ := strconv.Atoi(f[3][1:])
+			ml, il := memberLen(all[k])
+			var ul, ml2, ul2, il2 int64
+			decl2 := "e"
+			for _, v := range views {
+				if v.scanErr != nil {
+					continue
+				}
+				for _, m := range v.members {
+					if m.get("WARC-Record-ID") == tokId(all[k].w.tok) {
+						ul = m.ulen
+					}
+					if m.get("WARC-Record-ID") == tokId(all[k].w.tok+segTokOffset) {
+						ml2, ul2 = m.length, m.ulen
+						if m.has("Content-Length") {
+							decl2 = m.get("Content-Length")
+						}
+						if len(v.members) > 0 && v.members[0].get("WARC-Type") == "warcinfo" {
+							il2 = v.members[0].length
+						}
+					}
+				}
+			}
+			modelOps[i] = fmt.Sprintf("S:%s:%s:%d:%d:%d:%d:%s:%d:%d:%d", f[1], f[2], ml, ul, il, all[k].w.tok+segTokOffset, decl2, ml2, ul2, il2)
+			continue
+		}
 		if len(f) == 6 && strings.HasPrefix(f[3], "@") {
 			k, _ := strconv.Atoi(f[3][1:])
 			ml, il := memberLen(all[k])
@@ -580,8 +702,31 @@ func kWriter(args []string) (string, string) {
 				setViol("writer-offset", fmt.Sprintf("tok=%d file=%d reported offset %d: %s", a.w.tok, v.idx, a.resp.FileOffset, got))
 				continue
 			}
-			if at.ulen != a.resp.BytesWritten {
-				setViol("writer-bytes-written", fmt.Sprintf("tok=%d BytesWritten=%d serialized=%d", a.w.tok, a.resp.BytesWritten, at.ulen))
+			wantWritten := at.ulen
+			if a.w.seg {
+				// a segmented record: the one response counts both segments; the continuation lies behind the first segment
+				// in the same file, or first (behind the warcinfo) in the next one
+				found := 0
+				for _, vv := range views {
+					for _, m := range vv.members {
+						if m.get("WARC-Record-ID") == tokId(a.w.tok+segTokOffset) {
+							found++
+							wantWritten += m.ulen
+							if m.get("WARC-Type") != "continuation" {
+								setViol("writer-seg-continuation", fmt.Sprintf("tok=%d: the continuation has type %s", a.w.tok, m.get("WARC-Type")))
+							}
+							if !(vv.idx == v.idx && m.off == at.off+at.length) && !(vv.idx > v.idx) {
+								setViol("writer-seg-order", fmt.Sprintf("tok=%d first segment at %d:%d, continuation at %d:%d", a.w.tok, v.idx, at.off, vv.idx, m.off))
+							}
+						}
+					}
+				}
+				if found != 1 {
+					setViol("writer-seg-continuation", fmt.Sprintf("tok=%d: %d continuation records in the files", a.w.tok, found))
+				}
+			}
+			if wantWritten != a.resp.BytesWritten {
+				setViol("writer-bytes-written", fmt.Sprintf("tok=%d BytesWritten=%d serialized=%d", a.w.tok, a.resp.BytesWritten, wantWritten))
 			}
 			// the record's bytes: block as built
 			// a fresh gowarc reader at the reported offset returns exactly that record
@@ -815,6 +960,23 @@ func genWriter(r *rng, n int, tier string, emit func(string, ...string)) {
 				tok++
 				ops = append(ops, fmt.Sprintf("F:%d,%s,%d,%d", tok%90000000, pick(r, []string{"r", "h", "m"}), r.rangeInt(0, 600), pick(r, []int{-1, 0, 9, 150, 100000})))
 				stat("writer-op", "failed-record")
+				continue
+			}
+			if !lying && r.chance(1, 9) {
+				// a record the marshaler splits into a first segment and a continuation record; sizes around the limit so that
+				// the continuation's own fit test decides between the same file and a fresh one
+				tok++
+				var size int
+				switch r.intn(3) {
+				case 0:
+					size = r.rangeInt(max/2, max+400)
+				case 1:
+					size = r.rangeInt(max, 2*max+100)
+				default:
+					size = r.rangeInt(2, 900)
+				}
+				ops = append(ops, fmt.Sprintf("S:%d,r,%d,%d", tok%30000000, size, r.rangeInt(0, size)))
+				stat("writer-op", "segmented-record")
 				continue
 			}
 			bs := 1
